@@ -6,10 +6,6 @@ import YashModel.Glob.World
 import YashModel.Glob.DumpLemmas
 namespace YashModel.Glob
 
-/-- a plain file name: non-empty, without slash or NUL, and not `.` or `..` -/
-def plainName (n : Name) : Bool :=
-  validName n && !n.contains '\x00' && n != dot && n != dotdot
-
 /-- every directory from `key` down along `names` may be searched by its owner, and every name is
     present in the directory before it -/
 def World.reachable (w : World) : List Name → List Name → Bool
@@ -314,5 +310,43 @@ theorem absPath_rel (p : Path) (h : p.head? ≠ some '/') : absPath p = ['/', 't
   split
   · rename_i hh; exact absurd (by simpa using hh) h
   · rfl
+
+/-! ### the search bit -/
+
+theorem testBit6 (mode : Nat) : Nat.testBit mode 6 = decide (mode / 64 % 2 = 1) := by
+  rw [Nat.testBit_eq_decide_div_mod_eq]
+
+/-- the generated permission test (`permissions.contains(Mode::USER_EXEC)`, mask 0o100) is "bit 6 of the
+    mode is set" -/
+theorem ownerSearch_bit (mode : Nat) : ownerSearch mode = (mode / 64 % 2 == 1) := by
+  have key : mode &&& 64 = 64 ↔ mode / 64 % 2 = 1 := by
+    constructor
+    · intro h
+      have h6 := congrArg (fun x => Nat.testBit x 6) h
+      simp only [Nat.testBit_and] at h6
+      rw [testBit6] at h6
+      have : Nat.testBit 64 6 = true := by decide
+      rw [this] at h6
+      simpa using h6
+    · intro h
+      apply Nat.eq_of_testBit_eq
+      intro i
+      rw [Nat.testBit_and]
+      by_cases hi : i = 6
+      · subst hi
+        rw [testBit6]
+        simp [h]
+      · have : Nat.testBit 64 i = false := by
+          rw [show (64:Nat) = 2^6 from rfl, Nat.testBit_two_pow]
+          simp; omega
+        simp [this]
+  show (if YashModel.Generated.GlobTables.searchNeedsAll then
+      mode &&& YashModel.Generated.GlobTables.searchMask == YashModel.Generated.GlobTables.searchMask
+    else mode &&& YashModel.Generated.GlobTables.searchMask != 0) = _
+  simp only [YashModel.Generated.GlobTables.searchNeedsAll, YashModel.Generated.GlobTables.searchMask, if_true]
+  by_cases hm : mode / 64 % 2 = 1
+  · rw [key.mpr hm, hm]; rfl
+  · have h2 : ¬ (mode &&& 64 = 64) := fun h => hm (key.mp h)
+    rw [beq_false_of_ne h2, beq_false_of_ne hm]
 
 end YashModel.Glob
